@@ -6,11 +6,13 @@
 //!                                      close().await, descriptor table of the process observed
 //!   driver  = iour | poll              (real subjects only)
 //!
-//! A program is a list of completed methods {a, h, src, x}: clone / drop / opstart / opfinish /
-//! poll (one poll of the close future) / take2 (close() on another handle) / cancel (pending close
+//! A program is a list of completed methods {a, h, src, w, x}: clone / drop / opstart / opfinish /
+//! poll (one poll of the close future, made by hand with counting waker w = 1 or 2: the programs
+//! re-poll the pending future with the same and with the OTHER waker, i.e. the future moved to
+//! another task) / take2 (close() on another handle) / cancel (pending close
 //! future dropped) / dropunpolled (close future dropped before its first poll); x is the projected
 //! model state after the step. After every step the real observation (number of closes, whether
-//! the closer's waker was invoked, whether the close future is ready) is compared with x
+//! each of the two wakers was invoked, whether the close future is ready) is compared with x
 //! (mismatch = drift) and, independently of the model, the property's predicates are evaluated on
 //! the real observation (contract).
 use std::{
@@ -476,8 +478,15 @@ struct Exec<S: Subject> {
     closer: Option<S::H>,
     fut: Option<LocalFut<Result<Option<bool>, String>>>,
     fut_done: bool,
-    flag: Arc<FlagWaker>,
-    waker: Waker,
+    fut_polled: bool,
+    /// two task identities: the close future may be polled with either waker (a future that moves
+    /// from one task to another, or is polled under select!/timeout first)
+    flags: [Arc<FlagWaker>; 2],
+    wakers: [Waker; 2],
+    /// the waker given to the LATEST poll of the close future: the task that has to be woken
+    latest: usize,
+    /// the close future has been polled with more than one waker
+    migrated: bool,
     /// own accounting (independent of the model): holders that exist
     live: BTreeSet<String>,
     /// how the most recent reference was released
@@ -499,7 +508,8 @@ fn sig(s: &str, what: &str, extra: Value) -> Value {
 }
 
 pub fn run_program<S: Subject>(subject: S, case: &Value) -> Outcome {
-    let (flag, waker) = FlagWaker::new();
+    let (f1, w1) = FlagWaker::new();
+    let (f2, w2) = FlagWaker::new();
     let mut ex = Exec {
         s: subject,
         handles: BTreeMap::new(),
@@ -507,8 +517,11 @@ pub fn run_program<S: Subject>(subject: S, case: &Value) -> Outcome {
         closer: None,
         fut: None,
         fut_done: false,
-        flag,
-        waker,
+        fut_polled: false,
+        flags: [f1, f2],
+        wakers: [w1, w2],
+        latest: 0,
+        migrated: false,
         live: BTreeSet::new(),
         last_release: "-",
         forgot: false,
@@ -569,8 +582,15 @@ pub fn run_program<S: Subject>(subject: S, case: &Value) -> Outcome {
                         let c = ex.closer.take().ok_or("closer handle is gone")?;
                         ex.fut = Some(ex.s.close(c));
                     }
-                    ex.flag.take();
-                    let w = ex.waker.clone();
+                    // the waker this poll is made with (identity chosen by the program)
+                    let wi = (st["w"].as_u64().unwrap_or(1).clamp(1, 2) - 1) as usize;
+                    if ex.fut_polled && wi != ex.latest {
+                        ex.migrated = true;
+                    }
+                    ex.fut_polled = true;
+                    ex.latest = wi;
+                    ex.flags[wi].take();
+                    let w = ex.wakers[wi].clone();
                     let mut cx = Context::from_waker(&w);
                     let expect_done = x["c"] == "done";
                     let t0 = Instant::now();
@@ -589,10 +609,10 @@ pub fn run_program<S: Subject>(subject: S, case: &Value) -> Outcome {
                                 if !expect_done || site == "ins" {
                                     break;
                                 }
-                                while !ex.flag.is_set() && t0.elapsed() < watchdog() {
+                                while !ex.flags[wi].is_set() && t0.elapsed() < watchdog() {
                                     ex.s.drive(Duration::from_millis(10));
                                 }
-                                if !ex.flag.take() {
+                                if !ex.flags[wi].take() {
                                     note_expired();
                                     break;
                                 }
@@ -683,19 +703,23 @@ pub fn run_program<S: Subject>(subject: S, case: &Value) -> Outcome {
             for _ in 0..3 {
                 ex.s.drive(Duration::ZERO);
             }
-            if !ex.flag.is_set() {
+            // ... and it is the task that owns the future now that counts: the waker of the LATEST poll
+            if !ex.flags[ex.latest].is_set() {
+                let stale = ex.flags[1 - ex.latest].is_set();
                 strand_reported = true;
                 out.problems.push((
                     "contract",
                     sig(
                         site,
                         "close-never-resolves",
-                        json!({"last_release": ex.last_release, "predicted": x["strand"] == true}),
+                        json!({"last_release": ex.last_release, "predicted": x["strand"] == true,
+                               "repolled_with_other_waker": ex.migrated, "stale_waker_woken": stale}),
                     ),
                     format!(
                         "every other handle and operation has let go (last release: {}), the close future is pending and \
-                         its waker was never invoked: close().await cannot resolve",
-                        ex.last_release
+                         the waker given to its latest poll was never invoked{}: close().await cannot resolve",
+                        ex.last_release,
+                        if stale { " (the waker of an EARLIER poll was woken instead)" } else { "" }
                     ),
                     i,
                 ));
@@ -714,9 +738,16 @@ pub fn run_program<S: Subject>(subject: S, case: &Value) -> Outcome {
             }
         }
         if pending {
-            let xw = x["woken"] == true;
-            if ex.flag.is_set() != xw {
-                diffs.push(format!("closer woken real {} model {xw}", ex.flag.is_set()));
+            for k in 0..2 {
+                let xw = x["wok"][k] == true;
+                if ex.flags[k].is_set() != xw {
+                    diffs.push(format!(
+                        "waker {} (latest poll used waker {}) woken real {} model {xw}",
+                        k + 1,
+                        ex.latest + 1,
+                        ex.flags[k].is_set()
+                    ));
+                }
             }
         }
         if !diffs.is_empty() {
